@@ -444,6 +444,12 @@ create_world(World& w, const Plan& p)
   w.pdi = vu::make_pdi(sc, span, max_delta, views, ntang, false, tofb ? (p.c("tof_mash_all", 0) ? nbins_tof : 1) : 0);
   if (tofb && p.c("tof_mash_all", 0))
     sim::probe("tof_scanner_mashed_to_one_tof_bin");
+  if (p.c("exam_extras", 0))
+    {
+      // bed position with more than six significant digits (part of the geometry that is compared after reading back)
+      w.pdi->set_bed_position_horizontal(1234.567f);
+      w.pdi->set_bed_position_vertical(-0.1234567f);
+    }
   w.exam = vu::make_exam_info();
   {
     TimeFrameDefinitions tf;
@@ -469,7 +475,7 @@ create_world(World& w, const Plan& p)
   w.bo = ByteOrder(p.c("swap", 0) ? ByteOrder::swapped : ByteOrder::native);
   if (!w.bo.is_native_order())
     sim::probe("non_native_byte_order");
-  static const float scales[] = { 1.f, 0.5f, 2.f, 0.25f };
+  static const float scales[] = { 1.f, 0.5f, 2.f, 0.1234567f };
   w.scale = w.type.id == NumericType::FLOAT ? 1.f : scales[p.c("scale", 0) % 4];
   w.offset = w.store == FSTREAM || w.store == SSTREAM ? p.c("offset", 0) : 0;
   // segment sequence: a permutation drawn from the plan seed
